@@ -82,7 +82,7 @@ func (m *RModel) Read(n int) (data []byte, eof bool, begin, end int) {
 }
 
 // ReadByte returns the next byte; ok=false means (0, io.EOF).
-func (m *RModel) ReadByte() (b byte, ok bool, begin int) {
+func (m *RModel) NextByte() (b byte, ok bool, begin int) {
 	if m.Ended {
 		return 0, false, -1
 	}
@@ -238,7 +238,7 @@ func RunHistory(r *bgzf.Reader, f *File, ops []ROp, hook Hook, cur func(string),
 				what := fmt.Sprintf("op %d ReadByte #%d", i, j)
 				note(what)
 				wasEnded := m.Ended
-				want, ok, begin := m.ReadByte()
+				want, ok, begin := m.NextByte()
 				b, err := r.ReadByte()
 				if !ok {
 					if err != io.EOF {
